@@ -356,7 +356,12 @@ func genLen() *rapid.Generator[int] {
 // genOffset draws an offset biased to window boundaries and the end.
 func genOffset(L int) *rapid.Generator[int] {
 	return rapid.Custom(func(t *rapid.T) int {
-		switch rapid.IntRange(0, 5).Draw(t, "offKind") {
+		switch rapid.IntRange(0, 6).Draw(t, "offKind") {
+		case 6:
+			// offsets are 64-bit: positions whose low 32 bits fall into (or
+			// next to) the input, a whole number of 4 GiB further on
+			k := rapid.SampledFrom([]int{1, 1, 2, 255, 1 << 20}).Draw(t, "gib4")
+			return k<<32 + rapid.IntRange(0, L+1100).Draw(t, "low32")
 		case 0:
 			return rapid.IntRange(0, L+10).Draw(t, "off")
 		case 1:
